@@ -3,7 +3,9 @@
 Request line: `soil_evaporation <cells> ` + the scalar arguments in Python order (prof/th are in
 `<cells>`): bools as 0/1, `EvapTimeSteps TimeStepCounter CalendarType IrrMethod` as naturals, `DAP` as
 integer, everything else as float bit patterns.
-Reply: `epot th[n] i<stage2> wStage2 wSurf pond evapZ esAct esPot` (+ ghosts `i<negTake> i<branch>`).
+Reply: `epot th[n] i<stage2> wStage2 wSurf pond evapZ esAct esPot` (+ ghosts `i<negTake> i<branch>`;
+`negTake` = some extraction step took a negative amount: happened in stage 2 before repo fix 9c2fed8,
+proved impossible for the fixed code — Lean lemma `soilEvap_negTake_false`).
 """
 import numpy as np
 from ..proto import f2b, b, cells, fs, ob
@@ -16,7 +18,7 @@ ERR = {IndexError: "E:index", UnboundLocalError: "E:unbound", ZeroDivisionError:
 BRANCH_BITS = {1: "reinit", 2: "refresh", 4: "senescence_adj", 8: "premat_senes", 16: "off_season",
                32: "mulch_adj", 64: "partial_wetting", 128: "pond>EsPot", 256: "pond<=EsPot",
                512: "stage1", 1024: "stage1->prep_stage2", 2048: "stage2", 4096: "layer_expansion",
-               8192: "negTake(guard fails)"}
+               8192: "negTake(must not occur)"}
 
 
 def encode(reg, before, result, after=None):
